@@ -290,7 +290,8 @@ class Universe:
                 license=(("CC-BY %d" % i) if not c["text.padded"] else ("CC-BY %d \n" % i)) if c["rec.license"] else None,
                 rights=[None, "rights %d" % i, ""][c["rec.rights"]],
                 owners=[self.user("owner", j) for j in range(c["rec.owners"])],
-                tags=self.tags("rec", c["rec.tags"]),
+                # every second recording lists the shared tags in the opposite order (an order other than that of first appearance)
+                tags=self.tags("rec", c["rec.tags"])[::-1] if i % 2 else self.tags("rec", c["rec.tags"]),
                 features=self.features("rec", c["rec.features"]),
                 notes=self.notes("rec%d" % i, c["rec.notes"]),
             )
